@@ -1,6 +1,7 @@
 package zverif
 
 import (
+	bsimsync "go.etcd.io/bbolt/zsimsync"
 	"bytes"
 	"context"
 	"crypto/sha256"
@@ -29,6 +30,29 @@ func sha256Digest(b []byte) [32]byte { return sha256.Sum256(b) }
 // opsCache: number of persistence operations of the crash target per crash-free scenario.
 var opsCache = map[string]int{}
 
+// multiCache: the operations of that count that consisted of more than one write transaction.
+var multiCache = map[string][]int{}
+
+// orderCache: the order in which the operations are tried. Key-generation and key-file
+// operations come first, the latest first (the completion of the last epoch change is where
+// the multi-step sequences are); the chain store's puts follow in their own order.
+var orderCache = map[string][]int{}
+
+func crashOrder(kinds []string) []int {
+	var first, rest []int
+	for i := len(kinds) - 1; i >= 0; i-- {
+		if kinds[i] != "chain.Put" {
+			first = append(first, i+1)
+		}
+	}
+	for i, k := range kinds {
+		if k == "chain.Put" {
+			rest = append(rest, i+1)
+		}
+	}
+	return append(first, rest...)
+}
+
 // RunDaemon executes one scenario. A crash plan without an operation number is
 // resolved first: a crash-free pass counts the target's persistence operations.
 func RunDaemon(t *testing.T, sc *DaemonScenario, dump io.Writer) (res RunResult) {
@@ -48,6 +72,27 @@ func RunDaemon(t *testing.T, sc *DaemonScenario, dump io.Writer) (res RunResult)
 			}
 			ops = r0.Counters["probe:target_persistence_ops"]
 			opsCache[key] = ops
+			multiCache[key] = r0.MultiTx
+			orderCache[key] = crashOrder(r0.OpKinds)
+		}
+		if sc.Crash.Mode == "mid" {
+			// crash between the write transactions of one operation: only operations made of several have such a point
+			multi := multiCache[key]
+			if len(multi) == 0 {
+				res = RunResult{Seed: sc.Seed, Engine: "daemon", Prop: sc.Prop, Counters: map[string]int{"probe:every_operation_is_one_transaction": 1},
+					Summary: fmt.Sprintf("%s: every one of the %d persistence operations is a single write transaction", sc.Mode, ops)}
+				return
+			}
+			resolved := *sc
+			cr := *sc.Crash
+			cr.At = multi[cr.AtIndex%len(multi)]
+			resolved.Crash = &cr
+			res = runDaemon1(t, &resolved, dump)
+			res.Summary += fmt.Sprintf(" ops=%d at=%d mode=mid", ops, cr.At)
+			if res.Counters != nil {
+				res.Counters[fmt.Sprintf("c13point:%s:%d/%d:mid", sc.Mode, cr.At, ops)] = 1
+			}
+			return
 		}
 		if ops == 0 {
 			res = RunResult{Seed: sc.Seed, Engine: "daemon", Prop: sc.Prop, HarnessErr: "crash target performed no persistence operation"}
@@ -56,6 +101,9 @@ func RunDaemon(t *testing.T, sc *DaemonScenario, dump io.Writer) (res RunResult)
 		resolved := *sc
 		cr := *sc.Crash
 		cr.At = 1 + cr.AtIndex%ops
+		if ord := orderCache[key]; len(ord) == ops {
+			cr.At = ord[cr.AtIndex%ops]
+		}
 		resolved.Crash = &cr
 		res = runDaemon1(t, &resolved, dump)
 		res.Summary += fmt.Sprintf(" ops=%d at=%d mode=%s", ops, cr.At, cr.Mode)
@@ -91,6 +139,9 @@ func runDaemon1(t *testing.T, sc *DaemonScenario, dump io.Writer) (res RunResult
 			e.keepIO = sc.Prop == "C15"
 			InstallYields(sc.Yield, rec)
 			defer UninstallYields()
+			if sc.Crash != nil {
+				bsimsync.YieldHook = e.boltHook(bsimsync.YieldHook)
+			}
 			if err := e.setup(); err != nil {
 				res.HarnessErr = "setup: " + err.Error()
 				return
@@ -291,6 +342,8 @@ func (e *daemonEngine) body(res *RunResult) {
 	if sc.Crash != nil {
 		n := e.nodes[sc.Crash.Node]
 		e.rec.Count("probe:target_persistence_ops", n.pc.count)
+		res.MultiTx = append([]int(nil), n.pc.multi...)
+		res.OpKinds = append([]string(nil), n.pc.kinds...)
 		res.Summary += e.crashSummary()
 		if sc.Crash.At > 0 && !n.pc.fired {
 			e.rec.Count("probe:crash_point_not_reached", 1)
